@@ -9,7 +9,7 @@ from simkit.prng import stream
 
 ID = 'C16'
 LEVEL = 'exploration'
-TIERS = {'quick': {'runs': 6400, 'budget_s': 45},
+TIERS = {'quick': {'runs': 12000, 'budget_s': 60},
          'thorough': {'runs': 10 ** 9, 'budget_s': 600}}
 RUN_WALL = 90
 SHRINK_BUDGET_S = 60
@@ -61,9 +61,21 @@ def gen_plan(run_seed, tier, index):
              'fine': r.random() < 0.2}
     listener = {'http_port': PORT,
                 'queue': r.choice([0, 0, 0, 1, 1, 2, 3, 5])}
-    mode = r.choice(['plain'] * 8 + ['https_cert', 'https_port'])
+    if listener['queue'] and r.random() < 0.4:
+        # bounded queues: the full/not-full bookkeeping is shared between
+        # the handler threads and the callback thread; look at it with
+        # line-level pre-emption more often
+        sched['fine'] = True
+    # TLS is a stub (certificates are names, the wrapped socket is the
+    # plain simulated socket); what is exercised is the two-server logic
+    mode = r.choice(['plain'] * 7 + ['https_cert', 'https_port',
+                                     'https_ok', 'https_ok', 'https_only'])
     if mode != 'plain':
         listener['https_port'] = SPORT
+        listener['cert'] = r.choice(['/nonexistent/cert.pem', 'sim:badpem']) \
+            if mode == 'https_cert' else 'sim:good'
+    if mode == 'https_only':
+        listener['http_port'] = None
     ncb = r.choice([1, 1, 2])
     cbs = [{'dur': r.choice([0, 0, 0, 0.05, 0.3, 1.0, 5.0]),
             'raise': r.random() < 0.2} for _ in range(ncb)]
@@ -80,17 +92,32 @@ def gen_plan(run_seed, tier, index):
             if r.random() < 0.1:
                 m['gap'] = r.choice([0.05, 0.5, 3.0])
             msgs.append(m)
-        senders.append({'msgs': msgs})
+        sd = {'msgs': msgs}
+        if mode == 'https_only' or (mode in ('https_ok', 'https_port') and
+                                    r.random() < 0.5):
+            sd['port'] = SPORT
+        senders.append(sd)
     main = []
     if mode == 'https_port':
         main.append(['occupy', SPORT])
     ncycles = r.choice([1, 1, 1, 2, 2, 3])
+    probe = None
+    late = None
+    late_cyc = 0
+    if r.random() < 0.15:
+        # a callback that is registered while the listener is running
+        late = len(cbs)
+        cbs.append({'dur': r.choice([0, 0.05, 1.0]), 'raise': False,
+                    'late': True})
+        late_cyc = r.randrange(ncycles)
     remaining = list(range(ns))
     for cyc in range(ncycles):
         occ = r.random() < 0.08
         if occ:
             main.append(['occupy', PORT])
         main.append(['start'])
+        if late is not None and cyc == late_cyc:
+            main.append(['add_callback', late])
         if occ:
             main.append(['free', PORT])
             if r.random() < 0.7:
@@ -112,11 +139,25 @@ def gen_plan(run_seed, tier, index):
             main.append(['sleep', r.choice([0.01, 0.2, 1.0, 2.5])])
         elif pt == 'yield':
             main.append(['yield', r.randint(1, 12)])
+        if cyc == ncycles - 1 and mode in ('plain', 'https_ok') and \
+                not occ and \
+                r.random() < (0.8 if listener['queue'] else 0.3):
+            # liveness probe: once everything has been delivered (queue
+            # empty, every item processed; a sleep would not do because
+            # timers may fire early), one more indication must be accepted
+            # and delivered
+            probe = 's%d-0' % ns
+            senders.append({'msgs': [{'ind': probe}]})
+            main += [['join_senders'], ['wait_idle'], ['senders', [ns]],
+                     ['join_senders']]
         main.append(['stop'])
     main.append(['join_senders'])
     main.append(['stop'])
-    return {'check': ID, 'sched': sched, 'listener': listener,
+    plan = {'check': ID, 'sched': sched, 'listener': listener,
             'mode': mode, 'callbacks': cbs, 'senders': senders, 'main': main}
+    if probe:
+        plan['probe'] = probe
+    return plan
 
 
 def classify(rec):
@@ -171,10 +212,11 @@ def evaluate(plan, H):
         elif name == 'free':
             occupied.discard(op[1])
         elif name == 'start':
-            # with an HTTPS port configured start() always fails here: the
-            # port is occupied, or the (non-existent) certificate cannot be
-            # loaded - TLS itself is not simulated
-            expect_fail = (PORT in occupied) or mode != 'plain'
+            # start() must fail if one of the configured ports is in use
+            # or the certificate cannot be loaded
+            expect_fail = (PORT in occupied and mode != 'https_only') or \
+                (mode != 'plain' and SPORT in occupied) or \
+                mode == 'https_cert'
             if running:
                 # precondition of start(): listener must not be running
                 continue
@@ -223,6 +265,13 @@ def evaluate(plan, H):
             viol('delivered-twice',
                  'indication %s delivered %d times to callback %d' %
                  (ind, len(seqs), cb))
+    # a callback registered while the listener runs is owed the indications
+    # that were sent after add_callback() returned
+    late_from = {}
+    for rec in H['mainops']:
+        if rec['op'][0] == 'add_callback' and rec['result'] == 'ok':
+            late_from[rec['op'][1]] = rec['seq1']
+            bump(probes, 'callback_added_while_running')
     final_ok = bool(H['mainops']) and H['mainops'][-1]['op'][0] == 'stop' \
         and H['mainops'][-1]['result'] == 'ok' and not H['failure']
     nack = 0
@@ -239,6 +288,10 @@ def evaluate(plan, H):
                 if rec['seq'] < st['seq0'] or \
                         (st is H['mainops'][-1] and final_ok):
                     for cb in range(ncb):
+                        if plan['callbacks'][cb].get('late') and not (
+                                cb in late_from and
+                                rec['sent_seq'] > late_from[cb]):
+                            continue
                         en = ends.get((cb, ind), [])
                         if not en or min(en) > st['seq1']:
                             viol('acked-not-delivered',
@@ -251,6 +304,12 @@ def evaluate(plan, H):
                     min(deliv[(1, ind)]) < min(ends[(0, ind)]):
                 viol('callback-order',
                      'callback 1 ran before callback 0 finished for %s' % ind)
+        if ind == plan.get('probe') and cls != 'ack' and started_ok:
+            viol('idle-listener-refused-indication/' + cls,
+                 'after all senders were done and the queue was drained '
+                 '(every item taken and processed) the indication %s got %s '
+                 'instead of a success response: %r' %
+                 (ind, cls, (rec.get('raw') or b'')[-300:]))
         elif cls in ('cimerr', 'refused') or \
                 (cls == 'reset' and not rec.get('accepted')):
             if cls == 'cimerr':
